@@ -133,6 +133,7 @@ fn chain(e: &PdfError) -> String {
         PdfError::Parse { .. } | PdfError::Encoding { .. } => "Parse".into(),
         PdfError::Reference => "Reference".into(),
         PdfError::NoneError { .. } => "NoneError".into(),
+        PdfError::WrongDictionaryType { .. } => "WrongType".into(),
         PdfError::MissingEntry { field, .. } => format!("Missing({})", field),
         PdfError::Try { source, .. } => format!("Try>{}", chain(source)),
         PdfError::Shared { source } => format!("Shared>{}", chain(source)),
@@ -365,6 +366,14 @@ types! {
     "Date" => pdf::primitive::Date,
     "Rectangle" => Rectangle,
     "Matrix" => pdf::content::Matrix,
+    // containers on their own (object/mod.rs impls): arrays of optionals / of untyped primitives, nested
+    "Vec<Option<i32>>" => Vec<Option<i32>>,
+    "Vec<Primitive>" => Vec<Primitive>,
+    "Vec<Option<Dictionary>>" => Vec<Option<Dictionary>>,
+    "Vec<Option<Vec<Option<i32>>>>" => Vec<Option<Vec<Option<i32>>>>,
+    "Option<Vec<Primitive>>" => Option<Vec<Primitive>>,
+    "Vec<Option<Name>>" => Vec<Option<pdf::primitive::Name>>,
+    "PagesRc" => PagesRc,
     "Action" => Action,
     "Dest" => Dest,
     "MaybeNamedDest" => MaybeNamedDest,
